@@ -105,7 +105,12 @@ def coroutine_body(ctx, inst):
     yield
 
 
+class LoadBoom(OSError):
+    """Scripted one-off failure of a handle's load()."""
+
+
 def build(ctx, hidx, kind, world):
+    ctx.maybe_fault(hidx)
     inst = Inst(ctx, world, hidx, kind)
     ctx.insts.append(inst)
     ctx.loads[hidx] += 1
@@ -127,12 +132,46 @@ class MutedKindHandle(desper.WorldHandle):
         self.transform_functions.append(lambda handle, world: build(ctx, hidx, 'muted', world))
 
 
+class BoolFalseWorld(desper.World):
+    """A perfectly good world that happens to be falsy."""
+
+    def __bool__(self):
+        return False
+
+
+class LenZeroWorld(desper.World):
+    """Falsy through __len__ (e.g. 'number of game objects', none yet)."""
+
+    def __len__(self):
+        return 0
+
+
+WORLD_CLASSES = {None: desper.World, 'bool': BoolFalseWorld, 'len': LenZeroWorld}
+
+
+class FalsyMutedKindHandle(desper.WorldHandle):
+    """WorldHandle.load step by step (it hard-codes World()), producing a falsy World subclass."""
+
+    def __init__(self, ctx, hidx):
+        super().__init__()
+        self.ctx = ctx
+        self.transform_functions.append(lambda handle, world: build(ctx, hidx, 'muted', world))
+
+    def load(self):
+        world = WORLD_CLASSES[self.ctx.falsy]()
+        world.dispatch_enabled = False
+        for transform_function in self.transform_functions:
+            transform_function(self, world)
+        world.dispatch(desper.ON_WORLD_LOAD_EVENT_NAME, self, world)
+        return world
+
+
 class PlainKindHandle(desper.Handle):
     def __init__(self, ctx, hidx):
         self.ctx, self.hidx = ctx, hidx
 
     def load(self):
-        world = desper.World()
+        world = WORLD_CLASSES[self.ctx.falsy]()
         build(self.ctx, self.hidx, 'plain', world)
         return world
 
@@ -149,6 +188,11 @@ class Ctx:
         self.origins, self.methods, self.kinds, self.precache = origins, methods, kinds, precache
         self.nondefault = nondefault    # the loop that runs is NOT desper.default_loop
         self.idle_h = None              # script handle the idle default loop is seated on (if any)
+        self.loadfault = False          # opt-in flavour: one load() raises once, the request is retried
+        self.fault_countdown = None
+        self.fault_exc = None
+        self.fault_used = False
+        self.falsy = None               # None | 'bool' | 'len': the worlds are instances of a falsy World subclass
         self.omit = omit            # clear flags are three-valued: omitted / False / True
         self.handles = [None] * n_handles
         self.loads = [0] * n_handles            # observed load() calls
@@ -186,7 +230,10 @@ class Ctx:
         """Configure handle j at its first reference (kind, already cached by the harness or not)."""
         sp = self.sp
         kind = sp.pick(self.kinds, 'kind[h%d]' % j)
-        h = MutedKindHandle(self, j) if kind == 'muted' else PlainKindHandle(self, j)
+        if kind == 'muted':
+            h = FalsyMutedKindHandle(self, j) if self.falsy else MutedKindHandle(self, j)
+        else:
+            h = PlainKindHandle(self, j)
         self.handles[j] = h
         pre = False
         if not first and self.precache:
@@ -199,6 +246,46 @@ class Ctx:
             self.minst[j] = self.inst_of(w)
             sp.cover('precached-' + kind)
         return h
+
+    # ------------------------------------------------------------------ load fault flavour (opt-in)
+    def maybe_fault(self, hidx):
+        if self.fault_countdown:
+            self.fault_countdown -= 1
+            if self.fault_countdown == 0:
+                self.fault_countdown = None
+                self.fault_exc = LoadBoom('load() of h%d failed once' % hidx)
+                self.sp.note('      load() of h%d raises %r' % (hidx, self.fault_exc))
+                raise self.fault_exc
+
+    def recover(self):
+        """A load() failed while request last_req was carried out and the exception left start().  What the loop
+        and the handles look like now is not specified: adopt it from the public API, then retry the request."""
+        sp = self.sp
+        r = self.last_req
+        for i, h in enumerate(self.handles):
+            if h is not None:
+                self.mcached[i] = h.cached
+                self.minst[i] = self.inst_of(h()) if h.cached else None
+                self.mcount[i] = self.loads[i]
+        self.cur_inst = self.inst_of(self.loop.current_world)
+        self.cur_h = [i for i, h in enumerate(self.handles) if h is self.loop.current_world_handle][0]
+        for inst in self.insts:
+            if inst is self.cur_inst or (r.expect is not None and inst is r.expect) or inst is r.W:
+                inst.away = not inst.world.dispatch_enabled and inst is not self.cur_inst
+        if r.expect is not None and r.held:
+            r.expect.held = r.held + r.expect.held
+        sp.note('--- start() raised the load error; state now: current %r of h%d, cached %s; the request is retried'
+                % (self.cur_inst, self.cur_h, [bool(c) for c in self.mcached]))
+        sp.cover('load-fault-retry')
+        if self.cur_inst is not None and not self.mcached[self.cur_inst.hidx]:
+            sp.cover('load-fault-current-uncached')
+        self.next_req = r
+        self.last_req = None
+        self.pos -= 1
+        self.fired = False
+        self.entering = False
+        self.coro_started = False
+        self.fault_exc = None
 
     # ------------------------------------------------------------------ observation
     def deliver(self, inst, event, args):
@@ -226,7 +313,7 @@ class Ctx:
         if self.quit_asked:
             sp.fail('loop-does-not-stop', 'a frame started after Quit')
         self.frames += 1
-        if self.frames > 2 * (self.R + 1) + 2:
+        if self.frames > 2 * (self.R + 1) + 2 + (4 if self.loadfault else 0):
             raise HarnessOverrun('frame %d' % self.frames)
         if self.entering:
             self.verify_entered(inst)
@@ -234,6 +321,7 @@ class Ctx:
             sp.check(inst is self.cur_inst, 'processes-current-world',
                      'frame %d: %r is processed, current should be %r' % (self.frames, inst, self.cur_inst))
         self.fired = False
+        self.fault_countdown = None
         sp.note('frame %d: %r is processed' % (self.frames, inst))
         for a in self.insts:
             if a.away:
@@ -332,6 +420,8 @@ class Ctx:
                 sp.cover('reenter-held')
         elif r.cn or r.cc:
             sp.cover('raw-clear')
+        if self.falsy and r.method == 'switch':
+            sp.cover('falsy-world-left')
         if self.nondefault and r.method == 'switch':
             sp.cover('nondefault-loop')
             if j == c and r.cc:
@@ -345,6 +435,12 @@ class Ctx:
         self.last_req = r
         self.pos += 1
         self.coro_started = False
+        if self.loadfault and not self.fault_used:
+            k = sp.choose(3, 'load-fault[%d]' % (self.pos - 1))
+            if k:
+                self.fault_used = True
+                self.fault_countdown = k
+                sp.note('      (the load() number %d from now on will fail once)' % k)
         # ---- the call
         if r.method == 'raw':
             raise desper.SwitchWorld(h, **r.kw)
@@ -457,8 +553,12 @@ def base_loop_defaults(sp):
 
 
 def h_switch(sp, R=2, n_handles=2, origins=('processor', 'on_update', 'coroutine'), methods=('switch', 'raw'),
-             kinds=('muted', 'plain'), precache=True, omit=False, nondefault=False):
+             kinds=('muted', 'plain'), precache=True, omit=False, nondefault=False, falsy=False, loadfault=False):
     ctx = Ctx(sp, R, n_handles, list(origins), list(methods), list(kinds), precache, omit, nondefault)
+    ctx.loadfault = loadfault
+    if falsy:
+        ctx.falsy = sp.pick(['bool', 'len'], 'falsy-world-class')
+        sp.note('   all worlds are instances of %s (falsy)' % WORLD_CLASSES[ctx.falsy].__name__)
     base_loop_defaults(sp)
     loop = desper.SimpleLoop(time_function=itertools.count().__next__)
     ctx.loop = loop
@@ -506,12 +606,17 @@ def h_switch(sp, R=2, n_handles=2, origins=('processor', 'on_update', 'coroutine
                 sp.note('   desper.default_loop is an idle SimpleLoop seated on h%d (%r)' % (k, ctx.minst[k]))
             else:
                 sp.note('   desper.default_loop is an idle SimpleLoop without a world')
-        try:
-            loop.start()
-        except HarnessOverrun:
-            raise
-        except Exception as ex:         # noqa
-            sp.fail('op-raises', 'loop.start() raised %r' % (ex,))
+        while True:
+            try:
+                loop.start()
+            except HarnessOverrun:
+                raise
+            except Exception as ex:         # noqa
+                if ctx.fault_exc is not None and ex is ctx.fault_exc:
+                    ctx.recover()
+                    continue
+                sp.fail('op-raises', 'loop.start() raised %r' % (ex,))
+            break
         sp.check(ctx.quit_asked, 'start-returns-early', 'start() returned before the script reached Quit')
         sp.check(loop.current_world is ctx.cur_inst.world and loop.current_world_handle is ctx.handles[ctx.cur_h],
                  'final-current-world', 'after Quit')
@@ -556,6 +661,16 @@ HARNESSES = {
                            nontrivial=[t for t in ALL_TAGS if t.startswith(('switch-', 'reenter', 'raw-clear'))] + ND_TAGS,
                            required=[t for t in ALL_TAGS if t not in ('origin-on_update', 'origin-coroutine')]
                            + ND_TAGS),
+    'switch1-falsy': dict(fn=h_switch, nontrivial=[t for t in ALL_TAGS if t.startswith(('switch-', 'raw-clear'))],
+                          required=[t for t in ALL_TAGS if t != 'reenter-held'] + ['falsy-world-left']),
+    'switch-proc-falsy': dict(fn=h_switch,
+                              nontrivial=[t for t in ALL_TAGS if t.startswith(('switch-', 'reenter', 'raw-clear'))],
+                              required=[t for t in ALL_TAGS if t not in ('origin-on_update', 'origin-coroutine')]
+                              + ['falsy-world-left']),
+    # opt-in, NOT in TIERS (see ASSUMPTIONS): a load() fails once while a request is carried out, start() is
+    # called again and the request retried
+    'switch-loadfault': dict(fn=h_switch, nontrivial=['load-fault-retry'],
+                             required=['load-fault-retry', 'load-fault-current-uncached']),
     'switch-proc': dict(fn=h_switch,
                         nontrivial=[t for t in ALL_TAGS if t.startswith(('switch-', 'reenter', 'raw-clear'))],
                         required=[t for t in ALL_TAGS if t not in ('origin-on_update', 'origin-coroutine')]),
@@ -575,6 +690,7 @@ TIERS = {
         ('switch1', dict(R=1, n_handles=2)),
         ('switch1-omit', dict(R=1, n_handles=2, omit=True)),
         ('switch1-nd', dict(R=1, n_handles=2, nondefault=True)),
+        ('switch1-falsy', dict(R=1, n_handles=2, falsy=True)),
     ],
     'thorough': [
         ('switch', dict(R=2, n_handles=3)),
@@ -586,6 +702,8 @@ TIERS = {
         ('switch-proc-omit', dict(R=2, n_handles=2, origins=('processor',), omit=True)),
         ('switch1-nd', dict(R=1, n_handles=3, nondefault=True)),
         ('switch-proc-nd', dict(R=2, n_handles=2, origins=('processor',), nondefault=True)),
+        ('switch1-falsy', dict(R=1, n_handles=3, falsy=True)),
+        ('switch-proc-falsy', dict(R=2, n_handles=2, origins=('processor',), falsy=True)),
     ],
 }
 BUDGET_S = {'quick': 120, 'thorough': 1500}
@@ -606,11 +724,12 @@ RULE = ('one evaluation = one feasible path = one complete frame script with its
 BOUNDS = {
     'quick': '2 handles, scripts of exactly 1 and 2 requests (all origins, both methods, both clear flags, both '
              'handle kinds, cached or not); 1 request with three-valued clear flags (omitted / False / True); 1 request on a loop that is not '
-             'desper.default_loop (idle default loop: no world / own world / seated on a script handle)',
+             'desper.default_loop (idle default loop: no world / own world / seated on a script handle); 1 request with falsy World subclasses',
     'thorough': '3 handles x 1 and 2 requests (everything); 2 handles x 3 requests issued from processors; 3 handles '
                 'x 3 requests, switch() from processors; 3 handles x 3 requests from processors, both methods, no '
                 'handle cached beforehand; three-valued clear flags: 3 handles x 1 request, 2 handles x 2 requests '
-                'from processors; non-default loop: 3 handles x 1 request, 2 handles x 2 requests from processors',
+                'from processors; non-default loop and falsy World subclasses: 3 handles x 1 request, 2 handles x 2 requests from '
+                'processors each',
 }
 ASSUMPTIONS = [
     'a clear flag that is not passed at all (to desper.switch, SwitchWorld or Loop.switch) must behave exactly like '
@@ -630,6 +749,15 @@ ASSUMPTIONS = [
     'SimpleLoop (without a world, seated on a world of its own, or seated on one of the script handles - possibly the '
     'target) and every switch() passes from_world= (the only thing switch() lets the user of a custom loop specify); '
     'same oracle',
+    'falsy=True entries: every world is an instance of a World subclass whose truth value is False (__bool__ False '
+    'or __len__ 0); a world is a world whatever bool() says, same oracle; the muted kind then replays '
+    'WorldHandle.load step by step because the real one hard-codes World()',
+    'loadfault=True (harness entry switch-loadfault, deliberately not part of TIERS): a load fault is not mentioned '
+    'by the statement.  The flavour lets one load() raise once, adopts whatever state the loop and the handles are '
+    'left in from the public API, restarts and retries the request under the normal oracle.  On the current code it '
+    'reports that a restart (switch to the own handle with clear_current) retried after its reload failed loads twice '
+    'and loses on_switch_in, because the current handle is then uncached and switch() no longer recognises the '
+    'self-switch',
     'switch() from a processor passes from_world explicitly, from callbacks and coroutines it relies on '
     'desper.default_loop (pointed at the loop under test for the duration of the path)',
     'after an exception escaped CoroutineProcessor.process its rotation may be off by one frame (C08/C09 matter): '
